@@ -174,6 +174,9 @@ def run(tier, seed):
     corp = docs.corpus()
     table, seqs, seqs3, sim, seqs4 = c02.gen_docs("quick", seed)
     dl = [(n, corp[n]) for n in sorted(corp)] + [("pool:" + k, v.encode()) for k, v in docs.POOL.items()]
+    # definitions whose tail is split into words by the writers (destination, title, attributes with and without values)
+    dl += [("x:linkdef-words", b"[foo]: /url a b c d e f g\n\n[foo] ![i][foo]\n"), ("x:linkdef-attrs", b'[r]: http://x.y/ "T" class=c width=3px height=4px x\n\ntext [r] ![i][r]\n'),
+           ("x:linkdef-angle", b"[a]: <http://x.y/z> 'single' k=v\n[b]: u (paren title) k\n\n[a] [b]\n"), ("x:imgattr", b'![i](p.png "t" width=3px  height=4px k)\n')]
     gen = [("seq", c02.text_of(table, s)) for s in seqs] + [("seq3", c02.text_of(table, s)) for s in (rnd.sample(seqs3, 1500 if tier == "quick" else 12000))] + [("sim", c02.text_of(table, s)) for s in sim]
     cases_ = []
     for name, b in dl:
@@ -181,6 +184,12 @@ def run(tier, seed):
             cases_.append((name, b, x, FMTS if tier == "thorough" else FMTS[:4]))
     for name, b in gen:
         cases_.append((name, b, rnd.choice(EXTS[:2]), [rnd.choice(FMTS)]))
+    # delimiter soup: every ordered pair of inline delimiters as "a x b", "a x b x a" and "a b a" -- the four pairing passes meet every delimiter inside every other
+    DEL = ["`", "``", "\'\'", "\'", "\"", "*", "**", "_", "[", "]", "(", ")", "<", ">", "$", "$$", "^", "~", "{++", "++}", "{--", "--}", "\\\\(", "[^", "[#", "<<", ">>"]
+    for a in DEL:
+        for b2 in DEL:
+            for k, d in enumerate(("%s x = %s end" % (a, b2), "%sx = %s %s" % (a, b2, a), "%s%s%s y" % (a, b2, a))):
+                cases_.append(("soup", (d + "\n").encode(), docs.STD if k != 1 else EXTS[(len(a) + len(b2)) % 3], ["html"] if k else ["latex"]))
     segs = []
     per = 12
     for i in range(0, len(cases_), per):
@@ -190,6 +199,10 @@ def run(tier, seed):
             s.append(line("e_new", 0, "d%d" % j, x, 0)); s.append(line("e_parse", 0)); s.append(line("e_tree", 0, "parse"))
             for f in fmts:
                 s.append(line("e_conv", 0, docs.FMT[f])); s.append(line("e_tree", 0, "export:" + f))
+            if name.startswith("pool:"):
+                # packaged formats go through mmd_engine_convert_to_data on the same engine
+                for f in ("bundlezip", "epub", "odt"):
+                    s.append(line("e_data", 0, docs.FMT[f])); s.append(line("e_tree", 0, "export:" + f))
             # sub-ranges on line boundaries
             cuts = [k + 1 for k, ch in enumerate(b) if ch == 10][:40]
             if cuts and len(b) < 20000:
@@ -227,7 +240,7 @@ def run(tier, seed):
     chk.cov["evaluations"] = ndump; chk.cov["distinct_nontrivial"] = len(cases_)
     chk.cov["tree_dumps"] = ndump; chk.cov["tree_nodes_checked"] = nnodes
     chk.cov["rule"] = ("primitive level: every forest TokenChain reaches with <= %d token.c primitives over <= 4 tokens, one shortest history each, replayed on real tokens and compared field by field; tree level: cases = repository corpus + pool documents x %d extension sets x %d formats, plus TLC-generated line sequences (all of length <= 2, sampled length 3, simulated 12-line) with a random "
-                       "format; each case dumps the tree after parse, after each (parse+)export and after three mmd_engine_parse_substring calls on line boundaries" % (5 if tier == "quick" else 6, 4 if tier == "quick" else len(EXTS), 4 if tier == "quick" else 7))
+                       "format, plus 3 shapes of every ordered pair of 27 inline delimiters; pool documents also through the packaged formats; each case dumps the tree after parse, after each (parse+)export and after three mmd_engine_parse_substring calls on line boundaries" % (5 if tier == "quick" else 6, 4 if tier == "quick" else len(EXTS), 4 if tier == "quick" else 7))
     chk.sample(dict(case=cases_[0][0], ext=cases_[0][2], formats=cases_[0][3])); chk.sample(dict(dump=trace[1]["nodes"][:6], when=trace[1]["when"]))
     seen = {}
     for seg, idx in rejected:
